@@ -241,6 +241,47 @@ def rule_waitloop(ctx, rep):
         break
 
 
+def rule_leader(ctx, rep):
+    """Batching of concurrent synchronize_rcu() callers: the caller whose push found gp_waiters empty runs the grace period,
+    every other caller sleeps on its wait node until that leader (or a later one) wakes it.  Exactly this split: a caller that
+    found the queue empty and slept would wait for a leader that does not exist; the leader marks its own node RUNNING so that
+    its wake-all pass does not wait for itself."""
+    for fl in ("memb", "mb", "qsbr"):
+        F, f = _sync(ctx, fl)
+        rep.touch(f)
+        push = [i for i in pat.rmws(f, glob="gp_waiters") if pat.from_fn(i, "urcu_wait_add")]
+        pat.require(len(push) == 1, "%s: push on gp_waiters" % fl)
+        pid_ = push[0].id
+        on_push = lambda a: len(a) == 3 and a[1][0] == "asm" and a[1][-1] == pid_ and a[2][0] == "c"
+        ed = pat.branch_edges_on(f, on_push)
+        if not ed:
+            raise Broken("%s: the result of the push on gp_waiters does not steer a branch" % fl)
+        END = ed[0][2][2][1]
+        first = [(t.blk.id, s_) for t, s_, a in ed if a[0] == "eq" and a[2][1] == END]       # the stack held only END: we are first
+        later = [(t.blk.id, s_) for t, s_, a in ed if a[0] == "ne" and a[2][1] == END]
+        own_waits = [w for w in waitloop.wait_sites(f) if waitloop.word_of(w) is not None and ir.ap_str(f, waitloop.word_of(w)).startswith("local:")
+                     and pat.last_field(waitloop.word_of(w)) == "urcu_wait_node.state"]
+        gplock = pat.mutex_calls(f, "pthread_mutex_lock", "rcu_gp_lock")
+        pat.require(own_waits and gplock and first and later, "%s: leader / follower anatomy" % fl)
+        rep.must_take_edge("C02.leader", fl + ".sleeps-only-if-not-first", f, push, own_waits, later, include_start=False,
+                           what="a caller sleeps on its wait node only when the queue was non-empty before its push")
+        rep.must_take_edge("C02.leader", fl + ".first-runs-the-grace-period", f, push, gplock, first, include_start=False,
+                           what="only the caller that found the queue empty goes on to take rcu_gp_lock and run the grace period")
+        for b_, s_ in first:
+            hit, _ = f.reach([f.blocks[s_].insts[0]], own_waits, include_start=True)
+            rep.check(hit is None, "C02.leader", fl + ".first-never-sleeps", "the first caller never sleeps on its own wait node", "the caller that found the queue empty can sleep on its wait node: nobody is left to wake it", [push[0].where()])
+            hit2, _ = f.reach([f.blocks[s_].insts[0]], gplock, include_start=True)
+            rep.check(hit2 is not None, "C02.leader", fl + ".first-reaches-gp", "the first caller reaches the grace period", "the caller that found the queue empty never runs a grace period", [push[0].where()])
+        RUN = ctx.mod(F.lib, "perfn").enum("urcu_wait_state", "URCU_WAIT_RUNNING")
+        run = [s_ for s_ in f.all_insts() if s_.op == "store" and s_.d["ap"] and ir.ap_str(f, s_.d["ap"]).startswith("local:") and pat.last_field(s_.d["ap"]) == "urcu_wait_node.state" and ir.const_of(f, s_.args[0]) == RUN]
+        wakes = waitloop.wake_sites(f)
+        wk = [w for w in wakes if waitloop.word_of(w) is not None and pat.last_field(waitloop.word_of(w)) == "urcu_wait_node.state"]
+        if not run:
+            rep.bad("C02.leader", fl + ".leader-marks-RUNNING", "the leader never marks its own wait node RUNNING: its wake-all pass treats the node as a sleeping waiter and spins for it to acknowledge", [push[0].where()])
+        elif wk:
+            rep.must_pass("C02.leader", fl + ".leader-marks-RUNNING", f, push, wk, lambda i: i in run, what="the leader's own node is RUNNING before the wake-all pass")
+
+
 def rule_compat(ctx, rep):
     """The ENOSYS fallback compat_futex_noasync (mutex + condition variable): FUTEX_WAIT waits while *uaddr == val, re-testing the
     word after every pthread_cond_wait, all under the global mutex; FUTEX_WAKE broadcasts under the same mutex (a wake-up issued
@@ -612,5 +653,6 @@ RULES = [
     ("C02.kind", rule_kind),
     ("C02.lockorder", rule_lockorder),
     ("C02.enosys", rule_compat),
+    ("C02.leader", rule_leader),
 ]
 FLOORS = {}
